@@ -1,6 +1,7 @@
 //! `hv_net <mode> --seed N --cases N --out DIR --tier quick|thorough [--replay FILE]`
 //! modes: c35 (networking closures + demux routing), c39 (quorum helpers), c41 (compiled flows)
 mod c35;
+mod c39;
 mod val;
 
 #[allow(unused_imports, unused_qualifications, missing_docs, non_snake_case, unused, clippy::all)]
@@ -151,11 +152,67 @@ mod gen_c35 {
     }
 }
 
+#[allow(unused_imports, unused_qualifications, missing_docs, non_snake_case, unused, clippy::all)]
+mod gen_c39 {
+    pub mod q_1_1 {
+        include!(concat!(env!("OUT_DIR"), "/q_1_1.rs"));
+    }
+    pub mod q_2_2 {
+        include!(concat!(env!("OUT_DIR"), "/q_2_2.rs"));
+    }
+    pub mod q_3_3 {
+        include!(concat!(env!("OUT_DIR"), "/q_3_3.rs"));
+    }
+    pub mod q_1_2 {
+        include!(concat!(env!("OUT_DIR"), "/q_1_2.rs"));
+    }
+    pub mod q_1_3 {
+        include!(concat!(env!("OUT_DIR"), "/q_1_3.rs"));
+    }
+    pub mod q_2_3 {
+        include!(concat!(env!("OUT_DIR"), "/q_2_3.rs"));
+    }
+    pub mod q_2_4 {
+        include!(concat!(env!("OUT_DIR"), "/q_2_4.rs"));
+    }
+    pub mod q_3_5 {
+        include!(concat!(env!("OUT_DIR"), "/q_3_5.rs"));
+    }
+    pub mod w_1_1 {
+        include!(concat!(env!("OUT_DIR"), "/w_1_1.rs"));
+    }
+    pub mod w_2_2 {
+        include!(concat!(env!("OUT_DIR"), "/w_2_2.rs"));
+    }
+    pub mod w_3_3 {
+        include!(concat!(env!("OUT_DIR"), "/w_3_3.rs"));
+    }
+    pub mod w_1_2 {
+        include!(concat!(env!("OUT_DIR"), "/w_1_2.rs"));
+    }
+    pub mod w_1_3 {
+        include!(concat!(env!("OUT_DIR"), "/w_1_3.rs"));
+    }
+    pub mod w_2_3 {
+        include!(concat!(env!("OUT_DIR"), "/w_2_3.rs"));
+    }
+    pub mod w_2_4 {
+        include!(concat!(env!("OUT_DIR"), "/w_2_4.rs"));
+    }
+    pub mod w_3_5 {
+        include!(concat!(env!("OUT_DIR"), "/w_3_5.rs"));
+    }
+    pub mod join {
+        include!(concat!(env!("OUT_DIR"), "/join.rs"));
+    }
+}
+
 fn main() {
     let args = hv_common::Args::parse();
     hv_common::quiet_panics();
     match args.mode.as_str() {
         "c35" => c35::main(&args),
+        "c39" => c39::main(&args),
         m => {
             eprintln!("unknown mode {m}");
             std::process::exit(2)
